@@ -52,7 +52,8 @@ var wanted = map[string]bool{
 	"shardedMap.Load": true, "shardedMap.Store": true, "shardedMapOf.Load": true, "shardedMapOf.Store": true,
 	"syncMap.Load": true, "syncMap.Store": true, "NewShardedMap": true, "NewSyncMap": true, "NewShardedMapOf": true,
 	"Trait.init": true, "NewFailover": true, "NewFailoverOf": true,
-	"GobRegister": true, "GobTypesHash": true, "GobTypesHashReset": true,
+	"recursiveTypeHash": true,
+	"GobRegister":       true, "GobTypesHash": true, "GobTypesHashReset": true,
 	"ShardedMap.Restore": true, "ShardedMapOf.Restore": true, "SyncMap.Restore": true,
 	"ShardedMap.Dump": true, "ShardedMapOf.Dump": true, "SyncMap.Dump": true,
 	"shardedMap.DeleteAll": true, "shardedMapOf.DeleteAll": true, "syncMap.DeleteAll": true,
@@ -393,6 +394,18 @@ func (t *tr) expr(e ast.Expr) string {
 		return "(GLeaf " + q(t.src(e)) + ")"
 	case *ast.StarExpr, *ast.IndexExpr:
 		return "(GLeaf " + q(t.src(e)) + ")"
+	case *ast.SliceExpr:
+		if !x.Slice3 {
+			part := func(e ast.Expr) string {
+				if e == nil {
+					return "GNil"
+				}
+
+				return t.expr(e)
+			}
+
+			return fmt.Sprintf("(GCall %s %s)", q("$slice"), list([]string{t.expr(x.X), part(x.Low), part(x.High)}))
+		}
 	case *ast.UnaryExpr:
 		return fmt.Sprintf("(GUn %s %s)", q(x.Op.String()), t.expr(x.X))
 	case *ast.BinaryExpr:
